@@ -44,11 +44,15 @@ theorem prefix_stable (o : Opts) (b x : Bytes) (f : Frame) (r : Bytes)
         obtain ⟨size, r2⟩ := p
         rw [readU32_append x hr]
         simp only [hr] at h
+        dsimp only
+        by_cases hbig : o.early = true ∧ o.maxMsg > 0 ∧ size > o.maxMsg
+        · rw [if_pos hbig] at h; simp at h
+        rw [if_neg hbig] at h
+        rw [if_neg hbig]
         by_cases hs : (t0 :: t1 :: t2 :: t3 :: r').length ≥ size
         · have hs' : (t0 :: t1 :: t2 :: t3 :: (r' ++ x)).length ≥ size := by
             simp at hs ⊢; omega
           rw [if_pos hs] at h
-          dsimp only
           rw [if_pos hs']
           have e1 : (t0 :: t1 :: t2 :: t3 :: (r' ++ x)).take size = (t0 :: t1 :: t2 :: t3 :: r').take size := by
             have : t0 :: t1 :: t2 :: t3 :: (r' ++ x) = (t0 :: t1 :: t2 :: t3 :: r') ++ x := by simp
@@ -84,11 +88,15 @@ theorem error_stable (o : Opts) (b x : Bytes)
         obtain ⟨size, r2⟩ := p
         rw [readU32_append x hr]
         simp only [hr] at h
+        dsimp only
+        by_cases hbig : o.early = true ∧ o.maxMsg > 0 ∧ size > o.maxMsg
+        · rw [if_pos hbig]
+        rw [if_neg hbig] at h
+        rw [if_neg hbig]
         by_cases hs : (t0 :: t1 :: t2 :: t3 :: r').length ≥ size
         · have hs' : (t0 :: t1 :: t2 :: t3 :: (r' ++ x)).length ≥ size := by
             simp at hs ⊢; omega
           rw [if_pos hs] at h
-          dsimp only
           rw [if_pos hs']
           have e1 : (t0 :: t1 :: t2 :: t3 :: (r' ++ x)).take size = (t0 :: t1 :: t2 :: t3 :: r').take size := by
             have : t0 :: t1 :: t2 :: t3 :: (r' ++ x) = (t0 :: t1 :: t2 :: t3 :: r') ++ x := by simp
@@ -113,6 +121,9 @@ theorem frame_lt (o : Opts) (b : Bytes) (f : Frame) (r : Bytes)
       | some p =>
         obtain ⟨size, r2⟩ := p
         simp only [hr] at h
+        by_cases hbig : o.early = true ∧ o.maxMsg > 0 ∧ size > o.maxMsg
+        · rw [if_pos hbig] at h; simp at h
+        rw [if_neg hbig] at h
         by_cases hs : (t0 :: t1 :: t2 :: t3 :: r').length ≥ size
         · rw [if_pos hs] at h
           cases hp : parse o (mtype t0 t1 t2 t3) ((t0 :: t1 :: t2 :: t3 :: r').take size) with
@@ -826,18 +837,18 @@ theorem sendbuffer_complete (c : Chan) (cl : Bool) (bs mm mc : Nat) (hbs : 0 < b
 /-! ### non-vacuity -/
 
 /-- an ACK frame followed by one more byte decodes (hypothesis of `prefix_stable`) -/
-example : decodeStep ⟨0, 100⟩ ([65, 67, 75, 70, 28, 0, 0, 0] ++ List.replicate 20 7 ++ [9])
+example : decodeStep ⟨0, 100, true⟩ ([65, 67, 75, 70, 28, 0, 0, 0] ++ List.replicate 20 7 ++ [9])
     = .frame (.ack 117901063 117901063 117901063 117901063 117901063) [9] := by decide
 
 /-- a frame with an unknown type errors once it is complete (hypothesis of `error_stable`) -/
-example : decodeStep ⟨0, 100⟩ [88, 88, 88, 70, 9, 0, 0, 0, 1] = .error := by decide
+example : decodeStep ⟨0, 100, true⟩ [88, 88, 88, 70, 9, 0, 0, 0, 1] = .error := by decide
 
 /-- a declared size beyond the limit is an error once the bytes are there -/
-example : decodeStep ⟨16, 100⟩ ([77, 83, 71, 70, 17, 0, 0, 0] ++ List.replicate 9 0) = .error := by decide
+example : decodeStep ⟨16, 100, true⟩ ([77, 83, 71, 70, 17, 0, 0, 0] ++ List.replicate 9 0) = .error := by decide
 
 /-- two segmentations of one stream, evaluated -/
-example : feedAll ⟨0, 100⟩ (some []) [[77, 83, 71], [70, 12, 0, 0, 0, 1, 0], [0, 0, 77]]
-    = feedAll ⟨0, 100⟩ (some []) [[77, 83, 71, 70, 12, 0, 0, 0, 1, 0, 0, 0, 77]] := by decide
+example : feedAll ⟨0, 100, true⟩ (some []) [[77, 83, 71], [70, 12, 0, 0, 0, 1, 0], [0, 0, 77]]
+    = feedAll ⟨0, 100, true⟩ (some []) [[77, 83, 71, 70, 12, 0, 0, 0, 1, 0, 0, 0, 77]] := by decide
 
 /-- a concrete history on a fresh buffer: one 3-byte message, encoded, drained by two partial
 writes; every hypothesis of `sendbuffer_exact`/`sendbuffer_complete` holds for it -/
@@ -845,5 +856,160 @@ example : (txRun ⟨1, 2⟩ true (txInit 8196 0 0) [.write 5 1 [1, 2, 3], .enc, 
     (fun t => (t.emitted, t.dropped, t.sb.queue, t.sb.reading))
     = some ([77, 83, 71, 70, 27, 0, 0, 0, 1, 0, 0, 0, 2, 0, 0, 0, 1, 0, 0, 0, 5, 0, 0, 0, 1, 2, 3], false, [], none) := by
   decide +kernel
+
+
+/-! ### round trip: encoded frames come back, whatever the segmentation -/
+
+theorem readU32_u32le (n : Nat) (r : Bytes) (h : n < 4294967296) : readU32 (u32le n ++ r) = some (n, r) := by
+  simp [u32le, readU32]; omega
+
+/-- a chunk frame as it appears on the wire: type code, final flag, total size, channel id, rest -/
+def rawChunk (t0 t1 t2 fin chan : Nat) (body : Bytes) : Bytes :=
+  [t0, t1, t2, fin] ++ u32le (12 + body.length) ++ u32le chan ++ body
+
+def isChunkCode (t0 t1 t2 : Nat) : Prop :=
+  (t0 = 77 ∧ t1 = 83 ∧ t2 = 71) ∨ (t0 = 79 ∧ t1 = 80 ∧ t2 = 78) ∨ (t0 = 67 ∧ t1 = 76 ∧ t2 = 79)
+
+theorem rawChunk_length (t0 t1 t2 fin chan : Nat) (body : Bytes) :
+    (rawChunk t0 t1 t2 fin chan body).length = 12 + body.length := by
+  simp [rawChunk, u32le]; omega
+
+/-- `TcpCodec::encode` of an ACK -/
+def encAck (pv rbs sbs mms mcc : Nat) : Bytes :=
+  [65, 67, 75, 70] ++ u32le 28 ++ u32le pv ++ u32le rbs ++ u32le sbs ++ u32le mms ++ u32le mcc
+
+theorem decode_rawChunk (o : Opts) (t0 t1 t2 fin chan : Nat) (body x : Bytes)
+    (hc : isChunkCode t0 t1 t2) (hf : fin = 70 ∨ fin = 67 ∨ fin = 65)
+    (hsz : 12 + body.length < 4294967296) (hch : chan < 4294967296)
+    (hlim : ¬ (o.maxMsg > 0 ∧ 12 + body.length > o.maxMsg)) :
+    decodeStep o (rawChunk t0 t1 t2 fin chan body ++ x) = .frame (.chunk (rawChunk t0 t1 t2 fin chan body)) x := by
+  have hlen := rawChunk_length t0 t1 t2 fin chan body
+  unfold decodeStep
+  have hl : (rawChunk t0 t1 t2 fin chan body ++ x).length > 8 := by simp [hlen]; omega
+  rw [if_pos hl]
+  have hshape : rawChunk t0 t1 t2 fin chan body ++ x
+      = t0 :: t1 :: t2 :: fin :: (u32le (12 + body.length) ++ (u32le chan ++ body ++ x)) := by
+    simp [rawChunk]
+  rw [hshape]
+  simp only [readU32_u32le _ _ hsz]
+  rw [if_neg (by intro h; exact hlim ⟨h.2.1, h.2.2⟩)]
+  rw [← hshape]
+  have hge : (rawChunk t0 t1 t2 fin chan body ++ x).length ≥ 12 + body.length := by simp [hlen]
+  rw [if_pos hge]
+  have htake : (rawChunk t0 t1 t2 fin chan body ++ x).take (12 + body.length) = rawChunk t0 t1 t2 fin chan body := by
+    rw [List.take_append_of_le_length (by omega), List.take_of_length_le (by omega)]
+  have hdrop : (rawChunk t0 t1 t2 fin chan body ++ x).drop (12 + body.length) = x := by
+    rw [List.drop_append_of_le_length (by omega), List.drop_of_length_le (by omega)]; simp
+  rw [htake, hdrop]
+  have hm : mtype t0 t1 t2 fin = .chunk := by
+    unfold isChunkCode at hc
+    rcases hc with ⟨a, b, c⟩ | ⟨a, b, c⟩ | ⟨a, b, c⟩ <;> rcases hf with f | f | f <;> subst a b c f <;> decide
+  rw [hm]
+  have hp : parse o .chunk (rawChunk t0 t1 t2 fin chan body) = some (.chunk (rawChunk t0 t1 t2 fin chan body)) := by
+    simp only [parse, parseChunk, rawChunk, List.cons_append, List.nil_append]
+    have h1 : ¬ ¬ ((t0 = 77 ∧ t1 = 83 ∧ t2 = 71) ∨ (t0 = 79 ∧ t1 = 80 ∧ t2 = 78) ∨ (t0 = 67 ∧ t1 = 76 ∧ t2 = 79)) :=
+      fun h => h hc
+    rw [if_neg h1]
+    have h2 : ¬ ¬ (fin = 70 ∨ fin = 67 ∨ fin = 65) := fun h => h hf
+    rw [if_neg h2]
+    simp only [List.append_assoc, readU32_u32le _ _ hsz, readU32_u32le _ _ hch]
+    rw [if_neg hlim]
+    simp
+  rw [hp]
+
+
+theorem decode_encAck (o : Opts) (pv rbs sbs mms mcc : Nat) (x : Bytes)
+    (h1 : pv < 4294967296) (h2 : rbs < 4294967296) (h3 : sbs < 4294967296) (h4 : mms < 4294967296)
+    (h5 : mcc < 4294967296) (hlim : ¬ (o.maxMsg > 0 ∧ 28 > o.maxMsg)) :
+    decodeStep o (encAck pv rbs sbs mms mcc ++ x) = .frame (.ack pv rbs sbs mms mcc) x := by
+  have hlen : (encAck pv rbs sbs mms mcc).length = 28 := by simp [encAck, u32le]
+  unfold decodeStep
+  have hl : (encAck pv rbs sbs mms mcc ++ x).length > 8 := by simp [hlen]; omega
+  rw [if_pos hl]
+  have hshape : encAck pv rbs sbs mms mcc ++ x
+      = 65 :: 67 :: 75 :: 70 :: (u32le 28 ++ (u32le pv ++ u32le rbs ++ u32le sbs ++ u32le mms ++ u32le mcc ++ x)) := by
+    simp [encAck]
+  rw [hshape]
+  simp only [readU32_u32le 28 _ (by omega)]
+  rw [if_neg (by intro h; exact hlim ⟨h.2.1, h.2.2⟩)]
+  rw [← hshape]
+  have hge : (encAck pv rbs sbs mms mcc ++ x).length ≥ 28 := by simp [hlen]
+  rw [if_pos hge]
+  have htake : (encAck pv rbs sbs mms mcc ++ x).take 28 = encAck pv rbs sbs mms mcc := by
+    rw [List.take_append_of_le_length (by omega), List.take_of_length_le (by omega)]
+  have hdrop : (encAck pv rbs sbs mms mcc ++ x).drop 28 = x := by
+    rw [List.drop_append_of_le_length (by omega), List.drop_of_length_le (by omega)]; simp
+  rw [htake, hdrop]
+  have hm : mtype 65 67 75 70 = .ack := by decide
+  rw [hm]
+  have hp : parse o .ack (encAck pv rbs sbs mms mcc) = some (.ack pv rbs sbs mms mcc) := by
+    simp only [parse, hlen]
+    have hd : (encAck pv rbs sbs mms mcc).drop 8 = u32le pv ++ (u32le rbs ++ (u32le sbs ++ (u32le mms ++ (u32le mcc ++ [])))) := by
+      simp [encAck, u32le]
+    rw [hd]
+    have h5' : readU32 (u32le mcc) = some (mcc, []) := by simpa using readU32_u32le mcc [] h5
+    simp [readU32_u32le _ _ h1, readU32_u32le _ _ h2, readU32_u32le _ _ h3, readU32_u32le _ _ h4, h5']
+  rw [hp]
+
+/-- frames as a sender puts them on the wire -/
+inductive WFrame where
+  | chunk (t0 t1 t2 fin chan : Nat) (body : Bytes)
+  | ack (pv rbs sbs mms mcc : Nat)
+deriving Repr, DecidableEq
+
+def WFrame.enc : WFrame → Bytes
+  | .chunk t0 t1 t2 fin chan body => rawChunk t0 t1 t2 fin chan body
+  | .ack pv rbs sbs mms mcc => encAck pv rbs sbs mms mcc
+
+def WFrame.frame : WFrame → Frame
+  | .chunk t0 t1 t2 fin chan body => .chunk (rawChunk t0 t1 t2 fin chan body)
+  | .ack pv rbs sbs mms mcc => .ack pv rbs sbs mms mcc
+
+/-- well-formed and within the receiver's limit -/
+def WFrame.wf (o : Opts) : WFrame → Prop
+  | .chunk t0 t1 t2 fin chan body =>
+    isChunkCode t0 t1 t2 ∧ (fin = 70 ∨ fin = 67 ∨ fin = 65) ∧ 12 + body.length < 4294967296 ∧ chan < 4294967296 ∧
+    ¬ (o.maxMsg > 0 ∧ 12 + body.length > o.maxMsg)
+  | .ack pv rbs sbs mms mcc =>
+    pv < 4294967296 ∧ rbs < 4294967296 ∧ sbs < 4294967296 ∧ mms < 4294967296 ∧ mcc < 4294967296 ∧
+    ¬ (o.maxMsg > 0 ∧ 28 > o.maxMsg)
+
+theorem decode_enc (o : Opts) (w : WFrame) (x : Bytes) (h : w.wf o) :
+    decodeStep o (w.enc ++ x) = .frame w.frame x := by
+  cases w with
+  | chunk t0 t1 t2 fin chan body =>
+    obtain ⟨a, b, c, d, e⟩ := h
+    exact decode_rawChunk o t0 t1 t2 fin chan body x a b c d e
+  | ack pv rbs sbs mms mcc =>
+    obtain ⟨a, b, c, d, e, f⟩ := h
+    exact decode_encAck o pv rbs sbs mms mcc x a b c d e f
+
+theorem drain_encoded (o : Opts) : ∀ (ws : List WFrame), (∀ w ∈ ws, w.wf o) →
+    drain o (ws.flatMap WFrame.enc) = (ws.map WFrame.frame, .more []) := by
+  intro ws
+  induction ws with
+  | nil => intro _; simpa using drain_nil o
+  | cons w ws ih =>
+    intro h
+    simp only [List.flatMap_cons, List.map_cons]
+    rw [drain_eq, decode_enc o w _ (h w (by simp))]
+    simp only
+    rw [ih (fun w' hw' => h w' (by simp [hw']))]
+
+/-- **Round trip under any segmentation.** However the concatenated encodings of a sequence of
+well-formed chunk / ACK frames are cut into reads (down to single bytes), the framing layer yields
+exactly those frames, in order, and is left with an empty buffer and no error. -/
+theorem roundtrip_any_segmentation (o : Opts) (ws : List WFrame) (hwf : ∀ w ∈ ws, w.wf o) (segs : List Bytes)
+    (h : segs.flatten = ws.flatMap WFrame.enc) :
+    feedAll o (some []) segs = (ws.map WFrame.frame, some []) := by
+  rw [feedAll_eq o segs [] (drain_nil o)]
+  simp only [List.nil_append]
+  rw [h, drain_encoded o ws hwf]
+  rfl
+
+/-- non-vacuity: an ACK followed by a two-byte-body MSG chunk -/
+example : (WFrame.ack 0 8196 8196 0 0).wf ⟨0, 100, true⟩ ∧ (WFrame.chunk 77 83 71 70 1 [1, 2]).wf ⟨0, 100, true⟩ := by
+  constructor <;> (simp [WFrame.wf, isChunkCode])
+
 
 end OpcuaVerif.C11
